@@ -134,6 +134,14 @@ fn explore(ctx: &Ctx, base: u64, u: usize) {
         }
         transitions += 1;
     }
+    // and the map without regions, as made by new()
+    {
+        let live = Rc::new(Live { arcs: vec![], map: GuestMemoryMmap::new(), expect: Expect { regs: vec![] }, parent: None, how: "GuestMemoryMmap::new()".to_string() });
+        check_lineage(ctx, &live, "new");
+        seen.insert(vec![], 0);
+        frontier.push_back(live);
+        transitions += 1;
+    }
     let mut max_depth = 0;
     while let Some(live) = frontier.pop_front() {
         let state: Vec<Iv> = live.expect.regs.iter().map(|r| (r.0, r.1)).collect();
@@ -254,12 +262,11 @@ fn explore(ctx: &Ctx, base: u64, u: usize) {
                         let mut arcs = live.arcs.clone();
                         arcs.remove(i);
                         if regs.is_empty() {
-                            // an empty map is a valid result; nothing further to explore from it
+                            // an empty map is a valid result, and a state like any other: every
+                            // insertion into it must be accepted
                             if m2.num_regions() != 0 {
                                 ctx.fail("C10/remove_region/not-removed", &how, json!({"state": state}));
                             }
-                            check_lineage(ctx, &live, &how);
-                            continue;
                         }
                         let next = Rc::new(Live { arcs, map: m2, expect: Expect { regs }, parent: Some(live.clone()), how: how.clone() });
                         if check_lineage(ctx, &next, &how) {
